@@ -367,6 +367,67 @@ example : (3 ≤ 6 ∧ 4 ≤ 5 ∧ 0 < 3 ∧ 0 < 4) ∧ ((1/2 : ℚ) ≠ 0 ∧ (
 
 end fpm2
 
+section babinet
+variable {R V : Type} [Field R] [Field V] [DecidableEq R]
+open Model.C03 Model.C05
+
+/-- `Wavefront.babinet` as ARITHMETIC translated from the source — the mask handed to `to_fpm_and_back` (`1 - fpm`), the field at the
+Lyot plane (`self.data - returned.data`), the field after the stop (`lyot * that`, or that itself when no stop is given) — composed
+around the model of the mask path IS `Model.C05.babinet` (a flipped difference, `fpm - 1`, a stop that is added … make this fail) -/
+theorem gen_babinet (e : R → V) (ofR : R → V) (sqrt : R → R) (m n My Mx : Nat) (dx efl lam fdx : R)
+    (lyot mask : Nat → Nat → V) (f : Nat → Nat → V) (j i : Nat) :
+    babinetAfterLyot (lyot j i) (babinetAtLyot (f j i)
+        (toFpmAndBack e ofR sqrt m n My Mx dx efl lam fdx 0 0 (fun k l => babinetMaskArg (mask k l)) f j i))
+      = babinet e ofR sqrt m n My Mx dx efl lam fdx lyot mask f j i ∧
+    babinetNoStop (lyot j i) (babinetAtLyot (f j i)
+        (toFpmAndBack e ofR sqrt m n My Mx dx efl lam fdx 0 0 (fun k l => babinetMaskArg (mask k l)) f j i))
+      = babinet e ofR sqrt m n My Mx dx efl lam fdx (fun _ _ => 1) mask f j i := by
+  have hm : (fun k l => babinetMaskArg (mask k l)) = fun k l => 1 - mask k l := by
+    funext k l; simp only [babinetMaskArg, ofInt_eq, Int.cast_one]; try ring
+  constructor <;>
+    (simp only [babinet, hm, babinetAfterLyot, babinetAtLyot, babinetNoStop, ofInt_eq, Int.cast_zero, Int.cast_one]; try ring)
+
+/-- `Wavefront.babinet` (model: Lyot stop times [field minus the return through the complement mask]) splits, for EVERY mask grid
+and sampling, into the Lyot stop times the band-limiting residual `f - T(1) f` plus the Lyot stop times the return through the
+mask itself -/
+theorem babinet_split (e : R → V) (ofR : R → V) (sqrt : R → R) (m n My Mx : Nat) (dx efl lam fdx : R)
+    (lyot mask : Nat → Nat → V) (f : Nat → Nat → V) (j i : Nat) :
+    babinet e ofR sqrt m n My Mx dx efl lam fdx lyot mask f j i
+      = lyot j i * (f j i - toFpmAndBack e ofR sqrt m n My Mx dx efl lam fdx 0 0 (fun _ _ => 1) f j i)
+        + lyot j i * toFpmAndBack e ofR sqrt m n My Mx dx efl lam fdx 0 0 mask f j i := by
+  have h := babinet_complement e ofR sqrt m n My Mx dx efl lam fdx 0 0 mask f j i
+  simp only [babinet, ofInt_eq, Int.cast_zero, Int.cast_one]
+  rw [← h]; ring
+
+/-- Babinet's principle as the code uses it: on a band-complete `M × M` mask grid (`M·fpm_dx·dx = λ f`, `M ≥` both pupil sides)
+`field - return(1 - mask)` IS the return through the mask, so `babinet` = Lyot stop × `to_fpm_and_back(mask)`, sample for sample -/
+theorem babinet_principle (e : R → V) (he : ∀ a b, e (a + b) = e a * e b) (he0 : e 0 = 1) (ofR : R →+* V)
+    (sqrt : R → R) (m n M : Nat) (hm : m ≤ M) (hn : n ≤ M) (hm0 : 0 < m) (hn0 : 0 < n) [CharZero R] [CharZero V]
+    (horth : ∀ d : ℤ, ∑ l ∈ Finset.range M, e ((d : R) * (l : R) / (M : R)) = if (M : ℤ) ∣ d then (M : V) else 0)
+    (hsqrt : sqrt (1 / (M : R)) * sqrt (1 / (M : R)) = 1 / (M : R))
+    (dx efl lam fdx : R) (hdx : dx ≠ 0) (hf : efl ≠ 0) (hl : lam ≠ 0) (hd : fdx ≠ 0)
+    (hband : dx * fdx / (lam * efl) = 1 / (M : R))
+    (lyot mask : Nat → Nat → V) (f : Nat → Nat → V) (j i : Nat) (hj : j < m) (hi : i < n) :
+    babinet e ofR sqrt m n M M dx efl lam fdx lyot mask f j i
+      = lyot j i * toFpmAndBack e ofR sqrt m n M M dx efl lam fdx 0 0 mask f j i := by
+  rw [babinet_split, fpm_allpass_identity e he he0 ofR sqrt m n M hm hn hm0 hn0 horth hsqrt dx efl lam fdx 0 0 hdx hf hl hd hband
+    f j i hj hi]
+  ring
+
+end babinet
+
+/-- Babinet's principle for the actual kernel `exp(-2πi t)`, the inclusion `ℝ → ℂ` and the real square root: no abstract
+hypothesis left (non-vacuity of `babinet_principle`) -/
+theorem babinet_principle_real (m n M : Nat) (hm : m ≤ M) (hn : n ≤ M) (hm0 : 0 < m) (hn0 : 0 < n)
+    (dx efl lam fdx : ℝ) (hdx : dx ≠ 0) (hf : efl ≠ 0) (hl : lam ≠ 0) (hd : fdx ≠ 0)
+    (hband : dx * fdx / (lam * efl) = 1 / (M : ℝ)) (lyot mask f : Nat → Nat → ℂ) (j i : Nat) (hj : j < m) (hi : i < n) :
+    Model.C05.babinet eReal (⇑Complex.ofRealHom) Real.sqrt m n M M dx efl lam fdx lyot mask f j i
+      = lyot j i * Model.C05.toFpmAndBack eReal (⇑Complex.ofRealHom) Real.sqrt m n M M dx efl lam fdx 0 0 mask f j i := by
+  have hM0 : 0 < M := by omega
+  exact babinet_principle eReal eReal_add eReal_zero Complex.ofRealHom Real.sqrt m n M hm hn hm0 hn0
+    (eReal_orth M hM0) (Real.mul_self_sqrt (by positivity)) dx efl lam fdx hdx hf hl hd hband lyot mask f j i hj hi
+
+
 /-! ## non-vacuity (exact rational arithmetic): a band-complete 8-sample mask grid for a 6-sample pupil -/
 example : (1/2 : ℚ) * (25/2) / ((1/2) * 100) = 1 / 8 := by norm_num
 example : fpmBackShift0 (6 : ℚ) 5 8 8 (1/2) 100 (1/2) (25/2) 25 0 = 2 ∧ fpmFwdShift0 (6 : ℚ) 5 8 8 (1/2) 100 (1/2) (25/2) 25 0 = 2 := by
